@@ -43,8 +43,9 @@ DoRep(a) ==
               [] a = "fortran" -> [rep EXCEPT !.layout = "F"]
               [] a = "strided" -> [rep EXCEPT !.layout = "S"]
               [] a = "cast32" -> [rep EXCEPT !.width = 32]
-              [] a = "roll1" -> [rep EXCEPT !.roll = 1]
-              [] a = "roll_seam" -> [rep EXCEPT !.roll = 2]      \* the 0/360 seam falls between the first two stored directions
+              \* the roll actions store the ASCENDING sequence started one bin later / at the last direction, so they also undo a flip
+              [] a = "roll1" -> [rep EXCEPT !.roll = 1, !.flip = FALSE]
+              [] a = "roll_seam" -> [rep EXCEPT !.roll = 2, !.flip = FALSE]      \* the 0/360 seam falls between the first two stored directions
               [] a = "flip" -> [rep EXCEPT !.flip = ~@]
               [] a = "sortdir" -> [rep EXCEPT !.roll = 0, !.flip = FALSE]
               [] a = "chunk_lead" -> [rep EXCEPT !.chunks = "lead"]
